@@ -934,7 +934,7 @@ func runNonEmptyIOS(c Case, res *Result) {
 				o2, e2, p2 := drcOn(devOld, files)
 				c2 := c
 				c2.Raw = File{}
-				same := readOutcome("ios", o1, e1, "").canon() == readOutcome("ios", out, errOut, "").canon()
+				same := listsCanon(readOutcome("ios", o1, e1, "")) == listsCanon(readOutcome("ios", out, errOut, ""))
 				switch {
 				case p2 != "":
 					fail("older-without-raw", "panic_on_nonempty_device", "panic: "+p2)
@@ -950,4 +950,18 @@ func runNonEmptyIOS(c Case, res *Result) {
 			}
 		}
 	}
+}
+
+// listsCanon: the bound lists of an outcome (without warnings).
+func listsCanon(o outcome) string {
+	var ks []int
+	for k := range o.Lists {
+		ks = append(ks, k)
+	}
+	sort.Ints(ks)
+	var sb strings.Builder
+	for _, k := range ks {
+		fmt.Fprintf(&sb, "%d:%s;", k, strings.Join(o.Lists[k], ","))
+	}
+	return sb.String()
 }
